@@ -314,6 +314,73 @@ def directed_race(seed, n_parents=4, n_rows=64):
     return found
 
 
+def restructured_stage(rep, rs, tier):
+    """histories on ONE root object: parallel queries, then the circuit is restructured IN PLACE below the same root (a leaf
+    replaced, a leaf wrapped into a new mixture, prune(copy=False)) and relabelled with assign_ids, then parallel queries
+    again: they must equal the sequential ones on the circuit as it is now."""
+    from deeprob.spn.algorithms.inference import likelihood, log_likelihood, mpe
+    from deeprob.spn.algorithms.sampling import sample
+    from deeprob.spn.algorithms.structure import prune
+    from deeprob.spn.structure.node import assign_ids, Sum, Product
+    from deeprob.spn.structure.leaf import Bernoulli
+    nbad = 0; done = {}
+    for i in range(6 if tier == "quick" else 40):
+        root = c01.gen_circuit(rs, 2 * i, tier, kinds=("bern",), clt=0.0)      # Bernoulli leaves only
+        if not isinstance(root, (Sum, Product)):
+            continue
+        assign_ids(root)
+        tab = G.Table(root); dom = tab.domains(); scope = sorted(tab.root_scope()); width = max(scope) + 1
+        rows = c01.missing_rows(rs, scope, dom, "quick")
+        X = np.array([G.np_row(c, width, {}) for c in rows], dtype=np.float32)
+        nj = int(rs.choice([2, 4, -1]))
+        def queries(n_jobs):
+            with np.errstate(all="ignore"):
+                return (log_likelihood(root, X, n_jobs=n_jobs), mpe(root, X, n_jobs=n_jobs), sample(root, X, n_jobs=n_jobs))
+        history = [f"parallel queries n_jobs={nj}"]
+        problem = None
+        try:
+            queries(nj)
+            for step in range(3):
+                inner = [o for o in G.post_order(root) if isinstance(o, (Sum, Product)) and any(isinstance(c, Bernoulli) for c in o.children)]
+                kind = ["replace-leaf", "wrap-leaf", "prune-in-place"][(i + step) % 3]
+                if kind != "prune-in-place" and inner:
+                    par = inner[int(rs.randint(len(inner)))]
+                    k = [j for j, c in enumerate(par.children) if isinstance(c, Bernoulli)][0]
+                    old = par.children[k]; v = int(old.scope[0])
+                    new = Bernoulli(v, float(rs.randint(1, 16) / 16.0))
+                    ch = list(par.children); ch[k] = new if kind == "replace-leaf" else Sum(children=[old, new], weights=[0.25, 0.75])
+                    par.children = ch
+                else:
+                    kind = "prune-in-place"
+                    r2 = prune(root, copy=False)
+                    if r2 is not root:
+                        history.append("prune(copy=False) returned another root object: history ends"); break
+                assign_ids(root); history.append(kind + " + assign_ids")
+                LLs, Ms, _ = queries(0)
+                LLp, Mp, Sp = queries(nj)
+                history.append(f"parallel queries n_jobs={nj}")
+                obs = ~np.isnan(X)
+                if not np.array_equal(LLp, LLs, equal_nan=True):
+                    problem = dict(what="parallel log_likelihood differs from sequential on the restructured circuit",
+                                   max_abs_diff=float(np.nanmax(np.abs(LLp - LLs))))
+                elif not np.array_equal(Mp, Ms, equal_nan=True):
+                    problem = dict(what="parallel mpe differs from sequential on the restructured circuit")
+                elif np.isnan(Sp[:, scope]).any() or not np.array_equal(Sp[obs], X[obs]):
+                    problem = dict(what="parallel sample leaves a missing cell unfilled or changes evidence on the restructured circuit",
+                                   unfilled=int(np.isnan(Sp[:, scope]).sum()))
+                if problem:
+                    break
+                done[kind] = done.get(kind, 0) + 1
+        except Exception as e:
+            problem = dict(what="a query raised on a valid circuit", error=f"{type(e).__name__}: {e}")
+        if problem:
+            nbad += 1
+            if nbad <= 3:
+                rep.violation(dict(kind="parallel-differs-after-in-place-restructuring", history=history, failure=problem,
+                                   circuit_before=tab.brief(), circuit_now=G.Table(root).brief()), True)
+    rep.cov["restructured_in_place_histories"] = done
+
+
 def main(tier, seed, replay=None):
     rep = C.Report(PID, tier, seed)
     rs = np.random.RandomState(seed % (2 ** 31))
@@ -398,6 +465,7 @@ def main(tier, seed, replay=None):
                                    theorem_no_longer_applicable="C08_top_down_locked / C08_bottom_up (the recorded accesses are not the independent atomic actions the theorems assume)",
                                    note="layer flags: 1 layer sets differ from Model/Sched.v:layer_of, 2 not children-first, 4 number of layers, 8 edge not to a deeper layer"),
                               found_input=found)
+    restructured_stage(rep, rs, tier)
     if tier == "thorough":
         w = stress(seed, n_rows=2000000, reps=4)
         rep.cov["stress_search"] = w
